@@ -319,7 +319,7 @@ def manifest():
         old = json.load(open(mp))
     checks = []
     for pid in props:
-        if pid not in P.PROPS:
+        if pid not in P.PROPS or P.PROPS[pid].get("disabled"):
             continue
         c = P.PROPS[pid]
         checks.append({
@@ -334,7 +334,7 @@ def manifest():
             "technique": c["technique"],
         })
     na = [{"property_id": pid, "reason": P.NOT_APPLICABLE.get(pid, "check not built yet (planned, see DESIGN.md section 0)")}
-          for pid in props if pid not in P.PROPS]
+          for pid in props if pid not in P.PROPS or P.PROPS[pid].get("disabled")]
     m = {
         "version": 1,
         "setup_cmd": "python3 vp.py setup",
@@ -425,6 +425,8 @@ def main():
     if a.cmd == "all":
         worst = 0
         for pid in sorted(P.PROPS):
+            if P.PROPS[pid].get("disabled"):
+                continue
             r = subprocess.run([sys.executable, os.path.join(VERIF, "vp.py"), "check", pid, "--tier", a.tier])
             worst = max(worst, r.returncode)
         sys.exit(worst)
